@@ -43,6 +43,11 @@ def _compare_polarity(expr, p):
     while isinstance(e, ast.UnaryOp) and isinstance(e.op, ast.Not):
         neg = not neg
         e = e.operand
+    if isinstance(e, ast.BoolOp) and isinstance(e.op, ast.And) and not neg:
+        # `p is not None and <current> != p`: true exactly on a mismatch with a given p
+        rest = [v for v in e.values if not (isinstance(v, ast.Compare) and _is_none_test(v, p))]
+        if len(rest) == 1 and len(rest) < len(e.values):
+            return _compare_polarity(rest[0], p) if _compare_polarity(rest[0], p) == "T" else None
     if isinstance(e, ast.Compare) and len(e.ops) == 1 and p in {norm(e.left), norm(e.comparators[0])} and not _is_none_test(e, p):
         if isinstance(e.ops[0], (ast.NotEq, ast.IsNot)):
             return "F" if neg else "T"
@@ -76,9 +81,91 @@ def check_cas(ctx, rel, qual, fn):
         rets = [g.nodes[i] for i in r if g.nodes[i].kind == "stmt" and isinstance(g.nodes[i].ast, ast.Return)]
         ok = not (set(writes) & r) and rets and all(norm(x.ast.value) == "False" for x in rets) and g.exit in r
         ctx.check("R1-mismatch-returns-false", where, ok, f"a mismatch with `{p}` writes nothing and returns False", construct=g.nodes[t].text(), message="the mismatch branch writes or does not return False")
-    # R4: both loose and packed values are consulted
+    # R4: both loose and packed values are consulted, the loose one first (a loose ref overrides a packed one); the
+    # lookup may live in a helper method of the same class (followed one level)
+    src_fn, src_where = fn, where
     names = {call_attr(c) for c in calls_in(fn)}
-    ctx.check("R4-loose-and-packed", where, "read_loose_ref" in names and "get_packed_refs" in names, "the compared value covers loose and packed refs", construct=str(sorted(names & {"read_loose_ref", "get_packed_refs", "follow"})), message="the current value is not read from both loose and packed refs")
+    if "read_loose_ref" not in names:
+        cls = qual.rsplit(".", 1)[0]
+        for c in calls_in(fn):
+            if call_recv(c) == "self" and call_attr(c) not in WRITES:
+                r = ctx.repo.resolve_method(rel, cls, call_attr(c))
+                if r is not None and any(call_attr(x) == "read_loose_ref" for x in calls_in(r[2])):
+                    src_fn, src_where = r[2], f"{r[0]}:{r[1]}.{call_attr(c)}"
+                    break
+        names = {call_attr(c) for c in calls_in(src_fn)}
+    ctx.check("R4-loose-and-packed", src_where, "read_loose_ref" in names and "get_packed_refs" in names, "the compared value covers loose and packed refs", construct=str(sorted(names & {"read_loose_ref", "get_packed_refs", "follow"})), message="the current value is not read from both loose and packed refs")
+    _current_value_table(ctx, rel, qual, fn, p)
+
+
+def _current_value_table(ctx, rel, qual, fn, p):
+    """K8 decision table by abstract evaluation (sa.absint) of the whole CAS method — including a helper of the same
+    class if the lookup lives there — for the three storage states of a ref: loose (with a stale packed entry), only
+    packed, absent.  With the expected value equal to the value in force the method must reach its write; with any other
+    expected value it must return False without writing.  This is order-independent: reading the packed file first and
+    letting the loose ref override it passes; using a stale packed entry although a loose ref exists does not."""
+    from ..absint import Interp, Obj, Opaque, Raised, Unsupported
+
+    where = f"{rel}:{qual}"
+    cls = qual.rsplit(".", 1)[0]
+    L, P, Z, N = b"L" * 40, b"P" * 40, b"0" * 40, b"N" * 40
+    rows = [("loose ref over a stale packed entry", L, {b"refs/x": P}, L, [P, Z]), ("packed only", None, {b"refs/x": P}, P, [L, Z]), ("absent", None, {}, Z, [L, P])]
+    state = {}
+
+    def hook(interp, call, name, ev_args, env):
+        import re as _re
+
+        if not name or not _re.fullmatch(r"[\w.]+", name):
+            return NotImplemented
+        attr = name.split(".")[-1]
+        if name == "self.read_loose_ref":
+            return state["loose"]
+        if name == "self.get_packed_refs":
+            return dict(state["packed"])
+        if name == "self.follow":
+            raise Raised("KeyError", (), call)
+        if attr in WRITES or name in ("self._remove_packed_ref",):
+            raise Raised("WRITE", (), call)
+        if _re.fullmatch(r"self\.\w+", name):
+            r = ctx.repo.resolve_method(rel, cls, attr)
+            if r is not None and any(call_attr(x) in ("read_loose_ref", "get_packed_refs") for x in calls_in(r[2])):
+                args, kw = ev_args()
+                params = [a.arg for a in r[2].args.args]
+                return interp.call(r[2], dict(zip(params, [env.get("self")] + list(args)), **kw))
+            return None
+        if name == "contextlib.suppress":
+            return Opaque("suppress")
+        if name in ("urlutils.quote_from_bytes",):
+            return "quoted"
+        return NotImplemented
+
+    me = Obj("refs")
+    me.set("transport", Opaque("transport"))
+    me.set("worktree_transport", Opaque("worktree_transport"))
+    it = Interp(call_hook=hook, attr_hook=lambda o, a: Opaque(a), name_hook=lambda n: Z if n == "ZERO_SHA" else (Opaque(n) if n in ("SymrefLoop", "NoSuchFile", "contextlib", "urlutils", "errors") else NotImplemented))
+    params = [a.arg for a in fn.args.args]
+
+    def run_(expected):
+        args = {"self": me, params[1]: b"refs/x", p: expected}
+        for extra in params[3:]:
+            args[extra] = N
+        try:
+            return ("returned", it.call(fn, args))
+        except Raised as r:
+            return ("raised", r.name)
+
+    try:
+        for label, loose, packed, current, others in rows:
+            state["loose"], state["packed"] = loose, packed
+            out = run_(current)
+            ctx.check("R4-current-value-table", where, out == ("raised", "WRITE"), f"{label}: expected value == value in force -> the update is written", construct=f"{label}: {out}", message=f"{label}: with the expected old value equal to the ref's value in force the method does not write ({out})")
+            for o in others:
+                out = run_(o)
+                ctx.check("R4-current-value-table", where, out == ("returned", False), f"{label}: expected value {o[:1].decode()}… differs from the value in force -> False, nothing written", construct=f"{label}: expected {o[:1].decode()}: {out}", message=f"{label}: the expected old value differs from the ref's value in force but the method answers {out} — " + ("it compared with the stale packed entry instead of the loose ref" if loose is not None and o == P else "the comparison does not cover this storage state"))
+    except Unsupported as e:
+        from ..index import AnalysisError
+
+        raise AnalysisError(f"{where}: abstract evaluation unsupported: {e}")
 
 
 def check_add_if_new(ctx, rel, qual, fn):
@@ -144,6 +231,22 @@ def run(ctx):
                 elif isinstance(s, ast.Call) and call_attr(s) in CAS and len(s.args) > 1 and not (isinstance(s.args[1], ast.Constant) and s.args[1].value is None):
                     # counted as consumed unless it is the direct child of an Expr (handled above)
                     pass
+    # ---- R5: the expected old value handed to a conditional update is a real value ------------------------------
+    # (old_ref=None switches the comparison off: creating a ref one believes to be new must go through add_if_new)
+    for rel in repo.python_files():
+        if "_if_equals(" not in repo.text(rel) or not rel.startswith("breezy/git/"):
+            continue
+        for q, fn in repo.module(rel).functions().items():
+            for c in calls_in(fn):
+                if call_attr(c) in CAS and len(c.args) > 1 and isinstance(c.args[1], ast.Name):
+                    nm = c.args[1].id
+                    vals = [s_.value for s_ in walk_own(fn) if isinstance(s_, ast.Assign) and any(norm(t) == nm for t in s_.targets)]
+                    maybe_none = [norm(v)[:70] for v in vals if any(isinstance(x, ast.Constant) and x.value is None for x in ast.walk(v)) or any(isinstance(x, ast.Call) and call_attr(x) == "get" and len(x.args) < 2 for x in ast.walk(v))]
+                    if vals:
+                        ctx.check("R5-expected-value-present", f"{rel}:{q}", not maybe_none, f"`{nm}` handed to {call_attr(c)} is a value that was read, never None", construct="; ".join(maybe_none), message=f"`{norm(c)[:80]}` can be called with `{nm}` = None ({'; '.join(maybe_none)}): that switches the comparison off, so a ref created by someone else in the meantime is overwritten; an absent ref must be created with add_if_new")
+    ffr = repo.func(IR, "InterToLocalGitRepository.fetch_refs")
+    hs = [h for h in ast.walk(ffr) if isinstance(h, ast.ExceptHandler) and "KeyError" in norm(h.type or ast.Constant(value=""))]
+    ctx.check("R5-expected-value-present", f"{IR}:InterToLocalGitRepository.fetch_refs", any(call_attr(c) == "add_if_new" for h in hs for c in calls_in(h)), "a ref that was absent when the target's refs were read is created with add_if_new (never overwrites)", message="fetch_refs no longer creates absent refs with add_if_new: two pushers creating the same ref overwrite each other silently")
     n_all = 0
     for rel in repo.python_files():
         if "_if_equals(" in repo.text(rel):
@@ -157,6 +260,9 @@ def run(ctx):
 
 _FIX_SET = "        if old_ref is not None:\n            orig_ref = self.read_loose_ref(realname)\n            if orig_ref is None:\n                orig_ref = self.get_packed_refs().get(realname, ZERO_SHA)\n            if orig_ref != old_ref:\n                return False\n"
 MUTANTS = [
+    Mutant("absent ref created with set_if_equals(name, None, ...)", IR, "                    try:\n                        old_git_id = old_refs[name][0]\n                    except KeyError:\n                        self.target_refs.add_if_new(name, gitid)\n                    else:\n                        self.target_refs.set_if_equals(name, old_git_id, gitid)\n", "                    old_git_id = old_refs.get(name, (None, None))[0]\n                    self.target_refs.set_if_equals(name, old_git_id, gitid)\n", expect="R5-expected-value-present"),
+    Mutant("packed refs consulted before the loose ref", TG, "            orig_ref = self.read_loose_ref(realname)\n            if orig_ref is None:\n                orig_ref = self.get_packed_refs().get(realname, ZERO_SHA)\n", "            orig_ref = self.get_packed_refs().get(realname)\n            if orig_ref is None:\n                orig_ref = self.read_loose_ref(realname) or ZERO_SHA\n", expect="R4-current-value-table"),
+    Mutant("neutral: comparison written as one condition", TG, "            if orig_ref != old_ref:\n                return False\n        if realname == b\"HEAD\":", "            if old_ref is not None and orig_ref != old_ref:\n                return False\n        if realname == b\"HEAD\":", neutral=True),
     Mutant("set_if_equals: comparison removed again", TG, _FIX_SET, "", expect="R1-cas-param-guards-write"),
     Mutant("set_if_equals: mismatch returns True", TG, "            if orig_ref != old_ref:\n                return False\n        if realname == b\"HEAD\":", "            if orig_ref != old_ref:\n                return True\n        if realname == b\"HEAD\":", expect="R1-mismatch-returns-false"),
     Mutant("set_if_equals: write hoisted above the comparison", TG, "        if old_ref is not None:\n            orig_ref = self.read_loose_ref(realname)\n", "        self.transport.put_bytes(urlutils.quote_from_bytes(realname), new_ref + b\"\\n\")\n        if old_ref is not None:\n            orig_ref = self.read_loose_ref(realname)\n", expect="R1-cas-param-guards-write"),
